@@ -18,7 +18,7 @@ META = {
     "rule": (
         "kind=exhaustive: ALL histories of length 1-3 over a 12-letter alphabet (demand writes 0/1/2/3/5/8, a child "
         "zeroing its own demand, children's supply catching up with / exceeding / dropping below their demand, "
-        "utilisation changes) x 3 initial child sets x 2 factories, one adjustment cycle after every letter; "
+        "utilisation changes) x 4 initial child sets (one with a child that has no demand left) x 2 factories, one adjustment cycle after every letter; "
         "kind=random: seeded histories of 1-12 cycles with 0-3 actions each (dyadic demands, children of 1-3 sizes, "
         "0-4 initial children). Non-trivial = at least one adjustment that spawned or released a child."
     ),
@@ -63,7 +63,8 @@ def gen_case(rnd, spec):
             else:
                 acts.append(["util", rnd.randint(0, 9)])
         cycles.append(acts)
-    return {"initial": [[rnd.choice([1, 2, 3, 0.5]), rnd.choice([0, 1, 2])] for _ in range(rnd.choice([0, 0, 1, 2, 3, 4]))],
+    # initial children may already be draining (demand 0, still holding supply)
+    return {"initial": [[rnd.choice([1, 2, 3, 0.5, 0, 0]), rnd.choice([0, 1, 2, 3])] for _ in range(rnd.choice([0, 0, 1, 2, 3, 4]))],
             "sizes": rnd.choice([[1], [2], [1, 3], [1, 2, 5], [0.5, 4], [3]]), "cycles": cycles}
 
 
@@ -157,6 +158,11 @@ def execute(case, result):
         if appeared != new_kids:
             bad(k, "children that appeared %s are not the factory products of this adjustment %s"
                 % ([names.get(i, "?") for i in appeared], [names[i] for i in new_kids]))
+        missing = [names[id(c)] for c in initial if id(c) not in (H1 | M1)]
+        if missing:
+            bad(k, "initial children %s are neither active nor released: the pool has lost them" % missing)
+        if any(d == 0 for d, _ in case["initial"]):
+            result.count("adjustments_with_initial_children_without_demand")
         released_now = (H0 - H1) | (new_kids - H1)
         lost = released_now - M1
         if lost:
@@ -218,7 +224,7 @@ def run_exhaustive(spec, result):
                 continue
             if spec.get("only_depth") and depth != spec["only_depth"]:
                 continue
-            for initial in ([], [[1, 1]], [[2, 2], [1, 0]]):
+            for initial in ([], [[1, 1]], [[2, 2], [1, 0]], [[0, 3], [2, 2]]):
                 for sizes in ([1], [2, 1]):
                     case = {"initial": initial, "sizes": sizes, "cycles": [[ALPHABET[i]] for i in word]}
                     problems = execute(case, result)
@@ -244,6 +250,6 @@ def run_shard(spec):
 
 def finish(total, tier):
     for name in ("adjustments_checked", "adjustments_grew", "adjustments_released_demand", "adjustments_shrink_branch",
-                 "aggregations_checked", "exhaustive_histories"):
+                 "aggregations_checked", "exhaustive_histories", "adjustments_with_initial_children_without_demand"):
         if not total.counters.get(name) and not total.violations:
             total.inconc("monitor never observed: " + name)
